@@ -36,6 +36,7 @@ import (
 	"github.com/dadrus/heimdall/internal/rules/mechanisms/template"
 	"github.com/dadrus/heimdall/internal/x"
 	"github.com/dadrus/heimdall/internal/x/errorchain"
+	"github.com/dadrus/heimdall/internal/x/hashx"
 	"github.com/dadrus/heimdall/internal/x/stringx"
 )
 
@@ -353,13 +354,11 @@ func (a *genericAuthenticator) calculateCacheKey(ctx heimdall.Context, reference
 	// the values of the forwarded headers and cookies are part of the request sent to
 	// the endpoint and may influence the response
 	for _, headerName := range a.fwdHeaders {
-		digest.Write(stringx.ToBytes(headerName))
-		digest.Write(stringx.ToBytes(ctx.Request().Header(headerName)))
+		hashx.WriteStrings(digest, headerName, ctx.Request().Header(headerName))
 	}
 
 	for _, cookieName := range a.fwdCookies {
-		digest.Write(stringx.ToBytes(cookieName))
-		digest.Write(stringx.ToBytes(ctx.Request().Cookie(cookieName)))
+		hashx.WriteStrings(digest, cookieName, ctx.Request().Cookie(cookieName))
 	}
 
 	return hex.EncodeToString(digest.Sum(nil))
